@@ -216,8 +216,10 @@ func TestMergeC08C09(t *testing.T) {
 		authors := gen.Pubkeys(2)
 		// event pool for REQ answers
 		var pool []*mocrelay.Event
+		// timestamps around 100, or around 0 (0 and negative values are ordinary timestamps)
+		tsBase := rapid.SampledFrom([]int64{100, 100, 100, -1}).Draw(t, "tsbase")
 		for i := 0; i < 8; i++ {
-			e := &mocrelay.Event{Pubkey: authors[i%2], Kind: []int64{1, 1, 1, 7}[i%4], CreatedAt: int64(100 + rapid.IntRange(0, 4).Draw(t, fmt.Sprintf("pool%d", i))), Content: fmt.Sprint(i)}
+			e := &mocrelay.Event{Pubkey: authors[i%2], Kind: []int64{1, 1, 1, 7}[i%4], CreatedAt: tsBase + int64(rapid.IntRange(0, 4).Draw(t, fmt.Sprintf("pool%d", i))), Content: fmt.Sprint(i)}
 			gen.Seal(e)
 			pool = append(pool, e)
 		}
@@ -572,6 +574,11 @@ func TestMergeC08C09(t *testing.T) {
 				}
 			}
 			acts = append(acts, "notice")
+			for i := 0; i < n; i++ {
+				if len(owesEOSE[i]) > 0 {
+					acts = append(acts, fmt.Sprintf("closed%d", i))
+				}
+			}
 			a := rapid.SampledFrom(acts).Draw(t, lab+"act")
 			switch {
 			case a == "recv":
@@ -613,6 +620,13 @@ func TestMergeC08C09(t *testing.T) {
 				doClientSend(&mocrelay.ClientCountMsg{SubscriptionID: rapid.SampledFrom([]string{"x", "a", "b"}).Draw(t, lab+"sub"), ReqFilters: []*mocrelay.ReqFilter{{}}})
 			case a == "notice":
 				doEmit(rapid.IntRange(0, n-1).Draw(t, lab+"child"), mocrelay.NewServerNoticeMsg("hello"))
+			case strings.HasPrefix(a, "closed"):
+				// a child refuses the subscription: CLOSED instead of EOSE. The message passes
+				// unchanged; the other children's pre-EOSE stream stays subject to the rules.
+				i := int(a[6] - '0')
+				s := rapid.SampledFrom(sortedKeys(owesEOSE[i])).Draw(t, lab+"sub")
+				delete(owesEOSE[i], s)
+				doEmit(i, mocrelay.NewServerClosedMsg(s, "", "refused by a child"))
 			case strings.HasPrefix(a, "ev"):
 				i := int(a[2] - '0')
 				s := rapid.SampledFrom(sortedKeys(everReq[i])).Draw(t, lab+"sub")
